@@ -691,21 +691,49 @@ Example names_key_case_holds :
   = [(VArgsNames, str "Foo"%string, str "Foo"%string)].
 Proof. reflexivity. Qed.
 
-(* NEW finding (not in KNOWN_FINDINGS at the time of writing): for variables outside the ARGS family
-   the SOURCE TEXT of a regex key is lower-cased before compilation, which turns the class \D into
-   \d (likewise \S, \W, \B, \A, \P): REQUEST_HEADERS:/^\D+$/ selects the header "123" and misses "X-Id" *)
+(* F51 (repaired by 45c27b9).  Before the repair the SOURCE TEXT of a regex key of a variable outside
+   the ARGS family was lower-cased as a whole, which turned \D into \d (likewise \S, \W, \B, \A, \P):
+   REQUEST_HEADERS:/^\D+$/ selected the header "123" and missed "X-Id".  lowerRegexSource now keeps
+   escape sequences: the folded pattern applied to the folded key decides what the pattern as
+   written decides on the key (class patterns do not look at letter case). *)
 Definition q_hdr_xid : request :=
   mk_request [] [] [(str "X-Id"%string, str "v1"%string); (str "123"%string, str "v2"%string)] []
              (str "/"%string) (str "GET"%string) [].
 
-Lemma regex_key_escape_refuted :
-  exists (q : request) (t : rtarget) (p : rxpat) (key v key' v' : bytes),
-    rt_var t = VReqHeaders /\ rt_sel t = SelRx p /\ rt_negs t = [] /\ rt_count t = false /\
-    In (key, v) (q_hdr q) /\ rxm csem p key = true /\ rxm csem p (key_lower key) = true /\
-    In (key', v') (q_hdr q) /\ rxm csem p key' = false /\
-    get_field csem ord_id (build1 q) (compile_target csem t) = [(VReqHeaders, key', v')].
+Lemma digit_lower c : in_rng 48 57 (ascii_lower c) = in_rng 48 57 c.
 Proof.
-  exists q_hdr_xid, (mk_rtarget false VReqHeaders (SelRx RxNonDigits) []), RxNonDigits,
-         (str "X-Id"%string), (str "v1"%string), (str "123"%string), (str "v2"%string).
-  repeat split; try reflexivity; cbn; auto.
+  unfold ascii_lower, in_rng. destruct ((65 <=? c) && (c <=? 90)) eqn:E; [|reflexivity].
+  apply andb_true_iff in E as [E1 E2]. apply N.leb_le in E1, E2.
+  replace (c + 32 <=? 57) with false by (symmetry; apply N.leb_gt; lia).
+  replace (c <=? 57) with false by (symmetry; apply N.leb_gt; lia).
+  rewrite !andb_false_r. reflexivity.
 Qed.
+
+Lemma forallb_lower (f : N -> bool) k : (forall c, f (ascii_lower c) = f c) ->
+  forallb f (key_lower k) = forallb f k.
+Proof.
+  intro H. unfold key_lower, lower_ascii. induction k as [|c r IH]; cbn; [reflexivity|]. rewrite H, IH. reflexivity.
+Qed.
+
+Lemma space_lower c : rx_space (ascii_lower c) = rx_space c.
+Proof.
+  unfold ascii_lower, rx_space. destruct ((65 <=? c) && (c <=? 90)) eqn:E; [|reflexivity].
+  apply andb_true_iff in E as [E1 E2]. apply N.leb_le in E1, E2.
+  repeat match goal with |- context [?a =? ?b] => replace (a =? b) with false by (symmetry; apply N.eqb_neq; lia) end.
+  reflexivity.
+Qed.
+
+Theorem class_key_fold_exact p k : p = RxNonDigits \/ p = RxDigits \/ p = RxNonSpace ->
+  rxm csem (rxlow csem p) (key_lower k) = rxm csem p k.
+Proof.
+  intros [-> | [-> | ->]]; cbn [rxm rxlow csem rx_small_low rx_small]; rewrite key_lower_nil_iff; f_equal;
+    apply forallb_lower; intro c; rewrite ?digit_lower, ?space_lower; reflexivity.
+Qed.
+
+(* the old witness on the repaired code: X-Id is selected, 123 is not; as an exclusion it removes X-Id only *)
+Example regex_key_escape_repaired :
+  get_field csem ord_id (build1 q_hdr_xid) (compile_target csem (mk_rtarget false VReqHeaders (SelRx RxNonDigits) []))
+  = [(VReqHeaders, str "X-Id"%string, str "v1"%string)]
+  /\ get_field csem ord_id (build1 q_hdr_xid) (compile_target csem (mk_rtarget false VReqHeaders SelAll [SelRx RxNonDigits]))
+  = [(VReqHeaders, str "123"%string, str "v2"%string)].
+Proof. split; reflexivity. Qed.
